@@ -116,6 +116,7 @@ func Load(repo string, bc BuildConfig) (*Ctx, error) {
 		}
 	}
 	computeImmutableFields(c)
+	computeFieldLenInvariants(c)
 	curCtx = c
 	writesNothingCache = map[*types.Func]int{}
 	c.LoadDur = time.Since(t0)
